@@ -1,20 +1,145 @@
 """C05 - risk-measure values equal their mathematical definitions."""
+import time
+
 from contracts import risk
+from pfv.framework import Obligation, Verdict, real_exec
 
 PROP = 'C05'
+
+VALUES_REAL = r'''
+import math
+import pfhedge.nn as pnn
+import pfhedge.nn.functional as F
+g = torch.Generator().manual_seed(int(W.get("seed", 0)))
+bad = []
+def note(name, detail, x):
+    if len(bad) < 10:
+        bad.append({"what": name, "detail": detail, "x": x.tolist() if x.numel() <= 60 else "shape %s" % (tuple(x.shape),)})
+def sexp(t):
+    return math.exp(t) if t < 709.0 else float('inf')
+def cols(x):
+    x2 = x.reshape(x.shape[0], -1).to(torch.float64)
+    return [[float(v) for v in x2[:, j]] for j in range(x2.shape[1])]
+def rho(col, a):
+    m = max(-a * v for v in col)
+    return (m + math.log(math.fsum(math.exp(-a * v - m) for v in col) / len(col))) / a
+def es(col, p):
+    k = math.ceil(p * len(col)); s = sorted(col); return -math.fsum(s[:k]) / k
+def var_(col, p):
+    n = len(col); s = sorted(col)
+    if p <= 1.0 / n: return s[0]
+    if p > 1.0 - 1.0 / n: return s[-1]
+    return None
+NR = [1]
+def close(got, ref, dtype, scale):
+    tol = (3e-4 if dtype == torch.float32 else 1e-9) * max(scale, 1e-300)
+    g_ = [float(v) for v in got.reshape(-1).to(torch.float64)]
+    if len(g_) != len(ref): return False
+    for a_, b_ in zip(g_, ref):
+        if b_ is None: continue
+        lim = 3.4028234e38 if dtype == torch.float32 else 1.7976931348623157e308
+        if abs(b_) * NR[0] >= lim * 0.99:    # beyond (or at the edge of) the dtype's range - for a mean, of its running SUM: overflow to inf of the same sign is expected
+            if not (math.isinf(a_) and (a_ > 0) == (b_ > 0)) and not (abs(a_ - b_) <= 1e-3 * abs(b_)): return False
+            continue
+        if math.isinf(b_) or math.isinf(a_):
+            if a_ != b_: return False
+            continue
+        if not (abs(a_ - b_) <= tol * max(1.0, abs(b_) / max(scale, 1e-300)) * 1.0 + tol): return False
+    return True
+def samples(dtype, positive=False, scales=(1.0,)):
+    out = []
+    for N in (1, 2, 5, 40):
+        for trail in ((), (3,), (2, 2)):
+            shape = (N,) + trail
+            for sc in scales:
+                base = torch.randn(shape, generator=g, dtype=torch.float64)
+                ties = torch.randint(-1, 2, shape, generator=g).to(torch.float64)
+                const = torch.full(shape, 0.7, dtype=torch.float64)
+                heavy = torch.randn(shape, generator=g, dtype=torch.float64) / (torch.randn(shape, generator=g, dtype=torch.float64).abs() + 0.05)
+                for kind, x in (("normal", base), ("ties", ties), ("constant", const), ("heavy", heavy)):
+                    x = x * sc
+                    if positive: x = x.abs() + 0.1 * sc
+                    out.append(("%s/N=%d/trail=%s/scale=%g/%s" % (kind, N, trail, sc, str(dtype)[6:]), x.to(dtype)))
+    lv = torch.randn((6, 4), generator=g, dtype=torch.float64) + torch.tensor([0.0, -2000.0, 1500.0, 1e6], dtype=torch.float64)
+    if not positive: out.append(("levels/N=6/trail=(4,)/%s" % str(dtype)[6:], lv.to(dtype)))
+    return out
+for dtype in (torch.float64, torch.float32):
+    for (nm, x) in samples(dtype, scales=(1e-6, 1.0, 1e3, 1e6)):
+        sc = max(1.0, float(x.abs().max())) if x.numel() else 1.0
+        C = cols(x)
+        for a in (0.5, 2.0):
+            ref = [rho(c, a) for c in C]
+            if not close(F.entropic_risk_measure(x, a=a), ref, dtype, sc): note("entropic_risk_measure(a=%g) %s" % (a, nm), "got %s ref %s" % (F.entropic_risk_measure(x, a=a).flatten()[:4].tolist(), ref[:4]), x)
+            z = 0.25 * sc
+            refz = [rho([v - float(torch.tensor(z, dtype=dtype)) for v in c], a) for c in C]
+            if not close(pnn.EntropicRiskMeasure(a)(x, torch.tensor(z, dtype=dtype)), refz, dtype, sc): note("EntropicRiskMeasure(a=%g)(x, target) %s" % (a, nm), "module with target", x)
+        for p in (0.05, 0.3, 0.5, 1.0):
+            ref = [es(c, p) for c in C]
+            if not close(F.expected_shortfall(x, p, dim=0), ref, dtype, sc): note("expected_shortfall(p=%g, dim=0) %s" % (p, nm), "got %s ref %s" % (F.expected_shortfall(x, p, dim=0).flatten()[:4].tolist(), ref[:4]), x)
+            if not close(pnn.ExpectedShortfall(p)(x), ref, dtype, sc): note("ExpectedShortfall(p=%g) %s" % (p, nm), "module", x)
+        for p in (0.01, 0.999):
+            ref = [var_(c, p) for c in C]
+            if not close(F.value_at_risk(x, p, dim=0), ref, dtype, sc): note("value_at_risk(p=%g, dim=0) %s" % (p, nm), "got %s ref %s" % (F.value_at_risk(x, p, dim=0).flatten()[:4].tolist(), ref[:4]), x)
+    for (nm, x) in samples(dtype, scales=(1e-6, 1.0, 10.0)):
+        for a in (0.5, 2.0):
+            C = cols(x)
+            ref_u = [-sexp(-a * float(v)) for v in x.reshape(-1).to(torch.float64)]
+            if not close(F.exp_utility(x, a=a), ref_u, dtype, max(1.0, max(abs(r) for r in ref_u if not math.isinf(r)) if any(not math.isinf(r) for r in ref_u) else 1.0)): note("exp_utility(a=%g) %s" % (a, nm), "utility values", x)
+            ref_l = [math.fsum(sexp(-a * v) for v in c) / len(c) for c in C]
+            NR[0] = x.shape[0]
+            ok_l = close(pnn.EntropicLoss(a)(x), ref_l, dtype, max([1.0] + [r for r in ref_l if not math.isinf(r)]))
+            NR[0] = 1
+            if not ok_l: note("EntropicLoss(a=%g) %s" % (a, nm), "got %s ref %s" % (pnn.EntropicLoss(a)(x).flatten()[:3].tolist(), ref_l[:3]), x)
+    for (nm, x) in samples(dtype, positive=True, scales=(1e-6, 1.0, 1e6)):
+        C = cols(x)
+        for a in (0.5, 1.0):
+            ref = [-math.fsum((math.log(v) if a == 1.0 else v ** (1 - a)) for v in c) / len(c) for c in C]
+            if not close(pnn.IsoelasticLoss(a)(x), ref, dtype, max(1.0, max(abs(r) for r in ref))): note("IsoelasticLoss(a=%g) %s" % (a, nm), "got %s ref %s" % (pnn.IsoelasticLoss(a)(x).flatten()[:3].tolist(), ref[:3]), x)
+# heavy losses: the exponential utility / entropic loss must follow exp(-a x) as far as the dtype represents it (float64: a|x| up to 700)
+x = torch.tensor([[-100.0, -60.0], [-300.0, 2.0], [-0.5, -650.0]], dtype=torch.float64)
+ref_u = [-math.exp(-float(v)) for v in x.reshape(-1)]
+if not close(F.exp_utility(x, a=1.0), ref_u, torch.float64, max(abs(r) for r in ref_u)): note("exp_utility heavy losses float64", "got %s ref %s" % (F.exp_utility(x, a=1.0).flatten().tolist(), ref_u), x)
+ref_l = [math.fsum(math.exp(-v) for v in c) / len(c) for c in cols(x)]
+got_l = [float(v) for v in pnn.EntropicLoss(1.0)(x)]
+if any(abs(a_ - b_) > 1e-9 * abs(b_) for a_, b_ in zip(got_l, ref_l)): note("EntropicLoss heavy losses float64", "got %s ref %s" % (got_l, ref_l), x)
+result = {"got": bad, "ref": []}
+'''
+
+
+def battery_ob(tier, seed):
+    def check():
+        t0 = time.time()
+        r = None
+        for sd in ([seed] if tier == 'quick' else [seed + i for i in range(4)]):
+            r = real_exec(VALUES_REAL, {'seed': sd}, timeout=3000)
+            if not r.get('ok') or r['result']['got']:
+                break
+        if not r.get('ok'):
+            real_raise = r.get('exception') not in (None, 'NoResult', 'Timeout') and '/pfhedge/' in (r.get('traceback') or '')
+            return Verdict('refuted' if real_raise else 'unknown', 'bounded: real torch battery', time.time() - t0, 'the value battery raised on the real code: %s' % str(r)[:400],
+                           witness={'exception': r.get('exception')}, replay={'real': r, 'confirmed': real_raise})
+        got = r['result']['got']
+        if got:
+            return Verdict('refuted', 'bounded: real torch battery', time.time() - t0, '%d value(s) differ from the definition, first: %s: %s' % (len(got), got[0]['what'], got[0]['detail'][:300]),
+                           witness={'instance': got[0]}, replay={'real': r, 'confirmed': True})
+        return Verdict('proved', 'bounded: real torch battery', time.time() - t0, 'values equal the definitions on the battery', sample={'claim': 'BOUNDED: values vs double-precision references on real torch'})
+    return Obligation('RK/values/float-battery[bounded]', 'post', 'pfhedge.nn.functional', check, [PROP], bounded=True,
+                      clause='BOUNDED: entropic risk, expected shortfall, extreme-level value at risk, exponential/isoelastic utilities and the four loss modules (with a target) equal their definitions computed with math.fsum on real torch, '
+                             'float32 and float64: N in {1,2,5,40}, trailing shapes (), (3,), (2,2), normal / tied / constant / heavy-tailed samples, magnitudes 1e-6..1e6, columns on levels 0, -2000, 1500, 1e6, heavy losses a|x| up to 650 in float64')
 
 
 def build(tier, seed):
     from pfv.torchlib import import_pfhedge
     import_pfhedge()
-    obs = risk.c05_obligations(seed, tier)
+    obs = risk.c05_obligations(seed, tier) + [battery_ob(tier, seed)]
     return {'obligations': obs, 'functions': risk.FUNCTIONS,
             'assumptions': [
                 'A3 torch contracts: logsumexp(y, dim) = log sum exp(y) and is finite for finite y (the only anchor of "without overflow"); topk(k, largest=False).values = the k smallest order statistics; quantile(q) = linear interpolation between order statistics floor/ceil(q(n-1)); mean/sum/min/max along a dim',
                 'A2 exp/log axioms incl. log of products/quotients and exp of sums (instantiated structurally)',
-                'A1 reals for floats: ceil(p N) over the reals; the borderline-p carve-out of the property (fl(p N) crossing an integer) is not separately decided',
+                'A1 reals for floats: ceil(p N) over the reals; the borderline-p carve-out of the property (fl(p N) crossing an integer) is not separately decided; float behaviour (overflow, underflow, stabilising shifts) is seen only by the bounded battery',
                 'order statistics are an uninterpreted sort-of-the-sample primitive: what is proved is WHICH statistics are taken (k = ceil(pN), along dim 0, of input - target) and how they are combined',
-                'quadratic CVaR: stationarity condition and returned value proved for N = 3 (symbolic sample and lam); that a stationary point of the convex objective is its minimiser is a trusted convexity lemma; value_at_risk monotonicity in p between the regimes is not decided',
+                'quadratic CVaR: stationarity condition and returned value proved for every sample size N (symbolic sample and lam); that a stationary point of the convex objective is its minimiser is proved in Lean for C04 (qcvar_*), here a trusted convexity lemma; value_at_risk monotonicity in p between the regimes is not decided',
             ],
             'level': 'proof', 'trusted_base': ['pfv executor + torch shim', 'Sigma-normaliser', 'z3 NRA/UF', 'pfv/diff.py'],
+            'bounded_note': 'RK/values/float-battery[bounded]: finite battery of samples on real torch against math.fsum references (4 seeds in the thorough tier)',
             'note': 'functional forms and loss modules run from /repo on (N,) and (N,M) samples with symbolic N, M.'}
